@@ -672,143 +672,4 @@ Proof.
     pose proof (IHl b None sc t0 c0 sc1 EX Hfr code (lb :: bs) pos st 0 NN OK1 Hc Hpc Hsc) as A0. fold cb in A0.
     assert (POP : forall c1, passes lb c1 = true -> arrives code (lb :: bs) st (pos + length cb) (negb (has_rets b)) (rffs b) c1 t0 sc1 ->
                   arrives code bs st (pos + length cb) (negb (has_rets b)) (rffs b) c1 t0 sc1).
-    { intros c1 Hp1 Ha1. eapply arrives_pop_block; eauto; [right; reflexivity|reflexivity]. }
-    destruct c0 as [v0|l0 v0|l0 v0|v0|v0|p0];
-      [apply POP; [reflexivity|exact A0] | | | apply POP; [reflexivity|exact A0] | apply POP; [reflexivity|exact A0]
-       | apply POP; [reflexivity|exact A0]].
-    + (* break *)
-      destruct (is_target lb l0) eqn:TG.
-      * assert (LE : label_exit l (CBreak l0 v0) = CNormal v0).
-        { destruct l0 as [x|]; simpl in *; [|discriminate]. apply Nat.eqb_eq in TG. subst. rewrite Nat.eqb_refl. reflexivity. }
-        rewrite LE. destruct A0 as (s' & S1 & BB & K1 & P1 & R1).
-        rewrite compile_branch_hit_break in P1; auto.
-        pose proof (code_at_head _ _ _ _ P1) as IJ.
-        exists (set_pc s' (pos + len0)).
-        split. { eapply steps_trans; [exact S1|]. apply steps_one. unfold vm_step. rewrite IJ, jump_to_zoff. reflexivity. }
-        split; [exact BB|]. split; [exact K1|]. split; [simpl; lia|exact R1].
-      * assert (LE : label_exit l (CBreak l0 v0) = CBreak l0 v0).
-        { destruct l0 as [x|]; simpl in *; auto. rewrite Nat.eqb_sym, TG. reflexivity. }
-        rewrite LE. apply POP; [simpl; rewrite TG; reflexivity|exact A0].
-    + (* continue *)
-      change (label_exit l (CContinue l0 v0)) with (CContinue l0 v0).
-      destruct (is_target lb l0) eqn:TG.
-      * exfalso. destruct A0 as (s' & S1 & BB & K1 & P1 & R1).
-        unfold compile_branch in P1. rewrite find_hit in P1 by auto. simpl in P1.
-        apply NN. eapply code_at_in; eauto.
-      * apply POP; [simpl; rewrite TG; reflexivity|exact A0].
-  - (* Try *)
-    exact (case_try n b hasc cc hasf f IHl sc tr c sc' H Hfr code bs pos st NN Hbs Hc Hpc Hsc).
-  - (* Break *)
-    simpl in H. injection H as <- <- <-. cbn [compile] in Hc.
-    exists st. split; [apply steps_refl|]. split; [rewrite <- Hsc; apply bal_refl|]. split; [reflexivity|].
-    split; [rewrite Hpc; exact Hc|reflexivity].
-  - (* Continue *)
-    simpl in H. injection H as <- <- <-. cbn [compile] in Hc.
-    exists st. split; [apply steps_refl|]. split; [rewrite <- Hsc; apply bal_refl|]. split; [reflexivity|].
-    split; [rewrite Hpc; exact Hc|reflexivity].
-  - (* Return *)
-    simpl in H. injection H as <- <- <-.
-    change (compile bs pos false (Return v)) with ([ILoad (VNum v)] ++ (ret_code bs ++ [IRet])) in Hc.
-    apply code_at_app in Hc. destruct Hc as [H1 H2]. pose proof (code_at_head _ _ _ _ H1) as I1. simpl in H2.
-    exists (set_stk (set_pc st (S (pc st))) (VNum v :: stk st)), (VNum v).
-    split. { apply steps_one. unfold vm_step. rewrite Hpc, I1. reflexivity. }
-    split; [unfold bal; simpl; rewrite app_nil_r; auto|]. split; [reflexivity|].
-    split. { simpl. rewrite Hpc. replace (S pos) with (pos + 1) by lia. exact H2. }
-    split; reflexivity.
-  - (* Throw *)
-    simpl in H. injection H as <- <- <-. cbn [compile] in Hc.
-    pose proof (code_at_head _ _ _ _ Hc) as I1. apply code_at_tail in Hc. pose proof (code_at_head _ _ _ _ Hc) as I2.
-    set (s1 := set_stk (set_pc st (S pos)) (VNum v :: stk st)).
-    exists s1, s1.
-    split. { apply steps_one. unfold vm_step. rewrite Hpc, I1. reflexivity. }
-    split. { unfold vm_step. change (pc s1) with (S pos). rewrite I2. reflexivity. }
-    split; [unfold bal; simpl; rewrite app_nil_r; auto|].
-    split; [exists [VNum v]; reflexivity|reflexivity].
-Qed.
-
-Theorem compile_correct_all : forall n, goal_stmt n /\ goal_list n /\ goal_loop n.
-Proof.
-  induction n as [|n (IHs & IHl & IHL)].
-  - repeat split; intro; intros; discriminate.
-  - split; [|split].
-    + apply case_stmt; assumption.
-    + apply case_list; assumption.
-    + apply case_loop; assumption.
-Qed.
-
-(* ------------------------------------------------------------------------------------------------ *)
-(* the whole program, function-body mode *)
-
-Definition okind (o : outcome) : outcome := match o with OValue _ => OValue VUndef | x => x end.
-
-Lemma vm_run_last : forall code m st st' o, stepsn code m st st' -> vm_step code st' = o ->
-  (forall s, o <> Running s) -> vm_run (m + 1) code st = o.
-Proof.
-  intros code m st st' o HS HV HN. rewrite (vm_run_stepsn code m st st' 1 HS). simpl. rewrite HV.
-  destruct o; auto. exfalso. eapply HN; eauto.
-Qed.
-
-Theorem compile_control_correct_partial : forall n prog sc tr c sc',
-  frags prog = true ->
-  ~ In INil (compile_prog true prog) ->
-  exec_list n prog None sc = Some (tr, c, sc') ->
-  exists k, let o := vm_run k (compile_prog true prog) (boot sc) in
-    vout_trace o = tr /\
-    okind (vout_outcome o) = okind (outcome_of true c) /\
-    (rffs prog = true -> vout_outcome o = outcome_of true c) /\
-    vout_balanced o = true.
-Proof.
-  intros n prog sc tr c sc' Hfr NN H.
-  set (code := compile_prog true prog) in *.
-  assert (OK0 : bs_ok []) by constructor.
-  assert (EC : code = compile_ss [] 0 None 0 prog ++ [ILoad VUndef; IRet]).
-  { unfold code, compile_prog, compile_list. rewrite list_mode_fn by assumption. reflexivity. }
-  set (body := compile_ss [] 0 None 0 prog) in *.
-  assert (CA : code_at code body 0). { exists [], [ILoad VUndef; IRet]. rewrite EC. auto. }
-  destruct (compile_correct_all n) as (_ & GL & _).
-  pose proof (GL prog None sc tr c sc' H Hfr code [] 0 (boot sc) 0 NN OK0 CA eq_refl eq_refl) as A.
-  fold body in A. simpl (0 + length body) in A.
-  assert (I1 : nth_error code (length body) = Some (ILoad VUndef)).
-  { rewrite EC, nth_error_app2, Nat.sub_diag by lia. reflexivity. }
-  assert (I2 : nth_error code (S (length body)) = Some IRet).
-  { rewrite EC, nth_error_app2 by lia. replace (S (length body) - length body) with 1 by lia. reflexivity. }
-  destruct c as [v|l v|l v|v|v|p]; cbv beta iota delta [arrives] in A.
-  - (* falls off the end: loadUndef; ret *)
-    destruct A as (s' & (m & S1) & (A1 & A2 & A3 & A4 & A5) & K1 & P1 & R1).
-    set (s2 := set_stk (set_pc s' (S (length body))) (VUndef :: stk s')).
-    assert (E1 : vm_step code s' = Running s2). { unfold vm_step. rewrite P1, I1. reflexivity. }
-    assert (E2 : vm_step code s2 = Returned VUndef s2).
-    { unfold vm_step. change (pc s2) with (S (length body)). rewrite I2. reflexivity. }
-    exists (m + 1 + 1).
-    assert (RUN : vm_run (m + 1 + 1) code (boot sc) = Returned VUndef s2).
-    { apply vm_run_last with (st' := s2); [|exact E2|discriminate].
-      eapply stepsn_trans; [exact S1|]. simpl. exists s2. split; [exact E1|reflexivity]. }
-    cbv zeta. rewrite RUN. simpl. rewrite A4, A1, A2. simpl. auto.
-  - exfalso. destruct A as (s' & _ & _ & _ & P1 & _).
-    replace (compile_branch [] (pc s') l true) with [INil] in P1 by (destruct l; reflexivity).
-    apply NN. eapply code_at_in. exact P1.
-  - exfalso. destruct A as (s' & _ & _ & _ & P1 & _).
-    replace (compile_branch [] (pc s') l false) with [INil] in P1 by (destruct l; reflexivity).
-    apply NN. eapply code_at_in. exact P1.
-  - destruct A as (s' & v' & (m & S1) & (A1 & A2 & A3 & A4 & A5) & K1 & P1 & R1 & _).
-    simpl in P1. pose proof (code_at_head _ _ _ _ P1) as IR.
-    assert (E1 : vm_step code s' = Returned v' s'). { unfold vm_step. rewrite IR, K1. reflexivity. }
-    exists (m + 1).
-    assert (RUN : vm_run (m + 1) code (boot sc) = Returned v' s') by (apply vm_run_last with (st' := s'); [exact S1|exact E1|discriminate]).
-    cbv zeta. rewrite RUN. simpl. rewrite A4, A1, A2. simpl. repeat split; auto.
-    intro G. rewrite (R1 G). reflexivity.
-  - destruct A as (s1 & s2 & (m & S1) & V1 & (A1 & A2 & A3 & A4 & A5) & (xs & K1) & R1).
-    exists (m + 1).
-    assert (E1 : vm_step code s1 = Uncaught v (set_trys (restore_stacks (set_stk s2 (keep 0 (stk s2))) 0) [marker_frame])).
-    { rewrite V1. unfold vthrow. rewrite A1. reflexivity. }
-    assert (RUN : vm_run (m + 1) code (boot sc) = Uncaught v (set_trys (restore_stacks (set_stk s2 (keep 0 (stk s2))) 0) [marker_frame]))
-      by (apply vm_run_last with (st' := s1); [exact S1|exact E1|discriminate]).
-    cbv zeta. rewrite RUN. unfold restore_stacks. simpl. rewrite A2, A4. simpl. rewrite app_nil_r. auto.
-  - destruct A as (s1 & s2 & (m & S1) & V1 & (fr & F1 & F2) & I0 & T1).
-    exists (m + 1).
-    assert (E1 : vm_step code s1 = UncOut p (set_trys (drop_stacks (set_stk s2 (keep 0 (stk s2))) 0) [marker_frame])).
-    { rewrite V1, F1. simpl trys. rewrite handle_throw_unc_skip by assumption. reflexivity. }
-    assert (RUN : vm_run (m + 1) code (boot sc) = UncOut p (set_trys (drop_stacks (set_stk s2 (keep 0 (stk s2))) 0) [marker_frame]))
-      by (apply vm_run_last with (st' := s1); [exact S1|exact E1|discriminate]).
-    cbv zeta. rewrite RUN. unfold drop_stacks. simpl. rewrite I0, T1. simpl. auto.
-Qed.
+    { intros c1 Hp1 Ha1. eapply arrives_pop_block; eauto. Show.
